@@ -20,6 +20,27 @@ const span = int64(1)<<31 - 2 // |I-t|, |E-t| <= span: strictly inside the 68-ye
 
 type validityCase struct {
 	I, E, T int64 // instants in seconds since the Unix epoch (T >= 0)
+	// how the instant t is handed over as a time.Time: T seconds plus Nanos, in a zone ZoneOff
+	// seconds east of UTC, optionally carrying a monotonic clock reading. RRSIG times are whole
+	// seconds; a clock that shows T seconds and a fraction still shows second T (RFC 4034 3.1.5
+	// compares 32-bit second counts), so the oracle works on T whatever the fraction is.
+	Nanos   int64
+	ZoneOff int
+	Mono    bool
+}
+
+func (c validityCase) time() time.Time {
+	t := time.Unix(c.T, c.Nanos)
+	if c.Mono {
+		now := time.Now() // has a monotonic reading; Add keeps it
+		t = now.Add(t.Sub(now))
+	}
+	if c.ZoneOff != 0 {
+		t = t.In(time.FixedZone("harness", c.ZoneOff))
+	} else if c.Nanos%2 == 1 {
+		t = t.UTC()
+	}
+	return t
 }
 
 func abs64(x int64) int64 {
@@ -58,10 +79,18 @@ func checkValidity(c validityCase) error {
 	}
 	pbt.Note([]byte(fmt.Sprintf("%d|%d|%d", c.I, c.E, c.T)), near || c.wraps(),
 		fmt.Sprintf("wraps=%v", c.wraps()), fmt.Sprintf("valid=%v", want), "incep"+rel(c.I), "expir"+rel(c.E), fmt.Sprintf("inverted=%v", c.I > c.E))
+	if c.Nanos < 0 || c.Nanos > 999_999_999 || c.ZoneOff < -86000 || c.ZoneOff > 86000 {
+		return nil
+	}
 	rr := &dns.RRSIG{Inception: uint32(c.I), Expiration: uint32(c.E)}
-	if got := rr.ValidityPeriod(time.Unix(c.T, 0)); got != want {
-		return pbt.Errf("RRSIG{Inception:%d Expiration:%d}.ValidityPeriod(unix %d) = %v, want %v (instants: inception %d, expiration %d, both within 68 years of t)",
-			rr.Inception, rr.Expiration, c.T, got, want, c.I, c.E)
+	tt := c.time()
+	if tt.Unix() != c.T {
+		return nil // cannot happen: the wall clock reading of the constructed value is T + Nanos
+	}
+	pbt.Class(fmt.Sprintf("fraction>=0.5s:%v", c.Nanos >= 500_000_000), fmt.Sprintf("monotonic=%v", c.Mono), fmt.Sprintf("zone-offset=%v", c.ZoneOff != 0))
+	if got := rr.ValidityPeriod(tt); got != want {
+		return pbt.Errf("RRSIG{Inception:%d Expiration:%d}.ValidityPeriod(%s = unix %d + %d ns, monotonic reading: %v) = %v, want %v (instants: inception %d, expiration %d, both within 68 years of t)",
+			rr.Inception, rr.Expiration, tt.Format(time.RFC3339Nano), c.T, c.Nanos, c.Mono, got, want, c.I, c.E)
 	}
 	return nil
 }
@@ -109,6 +138,18 @@ func genValidity(t *rapid.T) validityCase {
 			c.E = T + span
 		}
 	}
+	switch rapid.IntRange(0, 4).Draw(t, "frac") {
+	case 0:
+		c.Nanos = 0
+	case 1:
+		c.Nanos = rapid.SampledFrom([]int64{1, 499_999_999, 500_000_000, 500_000_001, 999_999_999}).Draw(t, "ns")
+	default:
+		c.Nanos = rapid.Int64Range(0, 999_999_999).Draw(t, "ns")
+	}
+	if rapid.IntRange(0, 2).Draw(t, "zone") == 0 {
+		c.ZoneOff = rapid.SampledFrom([]int{3600, -3600, 19800, -43200, 50400, 1, -1, 86000}).Draw(t, "zoneoff")
+	}
+	c.Mono = rapid.IntRange(0, 3).Draw(t, "mono") == 0
 	if c.wraps() && !wrapOK {
 		// excluded class of the known finding: bring all three instants into [0, 2^32) keeping
 		// their distances where possible
